@@ -193,6 +193,31 @@ def _mk_shift(degs, tier):
         h.ensure("closing-point-preserved", AND(EQ(segs[-1].ctrlpoints[-1][0], allc[last][-1][0]), EQ(segs[-1].ctrlpoints[-1][1], allc[last][-1][1])))
 
 
+def _mk_shift_merged(degs, tier):
+    @proof(f"C15.jordan-split-shift-merged[{sname(degs)}]", "C15", tier=tier, props=["C15", "C06"], funcs=["jordancurve.JordanCurve.split", "jordancurve.JordanCurve.__split_segment"], timeout=600)
+    def _(h):
+        """a repeated parameter on the first segment (merged into one cut) and one parameter on the last: the later
+        cut must still land in the right segment (the offset counts inserted pieces, not requested parameters)."""
+        j, allc, mode = build(h, degs)
+        t0, t2 = h.real("t0", mode), h.real("t2", mode)
+        tol = Fraction(1e-6)
+        h.assume(AND(t0 > 2 * tol, t0 < 1 - 2 * tol, t2 > 2 * tol, t2 < 1 - 2 * tol))
+        last = len(degs) - 1
+        with h.stubs(decasteljau_stub(h) if h.sym else {}):
+            _, e = h.call(j.split, [0, last, 0], [t0, t2, t0])
+        h.ensure("repeated-parameter-accepted", e is None, detail=f"{type(e).__name__ if e else None}: {e}")
+        if e is not None:
+            return
+        segs = j.segments
+        h.ensure("one-cut-per-distinct-parameter", len(segs) == len(degs) + 2 and wf_structure(j))
+        a0 = spec.bezier_eval(allc[0], t0)
+        b = spec.bezier_eval(allc[last], t2)
+        h.ensure("cuts-land-on-the-right-segments", AND(EQ(segs[0].ctrlpoints[-1][0], a0[0]), EQ(segs[0].ctrlpoints[-1][1], a0[1]),
+                                                        EQ(segs[last + 1].ctrlpoints[-1][0], b[0]), EQ(segs[last + 1].ctrlpoints[-1][1], b[1])))
+        h.ensure("closing-point-preserved", AND(EQ(segs[-1].ctrlpoints[-1][0], allc[last][-1][0]), EQ(segs[-1].ctrlpoints[-1][1], allc[last][-1][1])))
+
+
+_mk_shift_merged((1, 1, 1), "quick")
 _mk_shift((1, 1, 1), "quick")
 _mk_shift((1, 1, 1, 1), "quick")
 for _degs, _idx in (((1, 1, 1), 0), ((1, 1, 1), 2), ((1, 2), 1), ((1, 1, 1, 1), 1)):
